@@ -56,6 +56,12 @@ def domain(ctx):
             for post in ["", "2", " ", ")", "x", "."]:
                 for funcs in ([SGN], [SGN, ABS]):
                     cases.append({"buf": [ord(c) for c in pre + w + post], "funcs": funcs})
+    # long maximal runs (a scanner with a bounded look-ahead window must not cut them)
+    for n in [15, 16, 17, 31, 32, 33, 34, 63, 64, 65, 66, 127, 128, 129, 257]:
+        for ch in ("7", "1.", "x", "sgn", " ", " \t", "+", "("):
+            run = (ch * n)[:n]
+            for pre, post in (("", ""), ("x+", "*y"), ("2 ", " 3")):
+                cases.append({"buf": [ord(c) for c in pre + run + post], "funcs": [SGN]})
     if not ctx.quick:
         for n in range(5, 7):
             for s in itertools.product(CLASSES10, repeat=n):
@@ -67,7 +73,7 @@ def domain(ctx):
         n = rng.randint(1, 24)
         cases.append({"buf": [rng.choice(full if rng.random() < 0.3 else ALPHA26[:-3]) for _ in range(n)],
                       "funcs": rng.choice([[SGN], [SGN, ABS]])})
-    rule += "; function-name words in 36 contexts; seeded random strings up to length 24 (printable ASCII + some non-ASCII)"
+    rule += "; maximal runs of 15..257 digits / letters / blanks / operators; function-name words in 36 contexts; seeded random strings up to length 24 (printable ASCII + some non-ASCII)"
     return cases, rule
 
 
